@@ -532,7 +532,10 @@ def verify(contract, max_paths=None, only_prefix=None, path_index=0):
     res = JobResult(contract)
     if not _EXPLORE_ONLY['on']:
         # per-contract time budget (a broken tree must not keep the check busy for hours: what is left is undecided)
-        b = getattr(contract, 'budget_s', None) or (420 if tier() != 'thorough' else 3600)
+        # (an explicit budget is sized for the quick tier; the thorough tier has 60 s solver time-outs and confirms every proof
+        # with a second solver, so it gets six times as much -- run #7 ran one contract of C11 out of its 200 s by a few seconds)
+        b = getattr(contract, 'budget_s', None)
+        b = (b * (6 if tier() == 'thorough' else 1)) if b else (420 if tier() != 'thorough' else 3600)
         _BUDGET['deadline'] = t0 + b
     rel, qual = contract.key()
     try:
